@@ -28,11 +28,6 @@ def replaceC (a b : Char) (s : Str) : Str := s.map (fun c => if c == a then b el
 /-- `s.replace(a, '')` for a one-character `a`. -/
 def removeC (a : Char) (s : Str) : Str := s.filter (fun c => c != a)
 
-/-- association-list lookup = Python dict subscription (first match; keys of a dict are unique) -/
-def lookup {α β} [BEq α] (k : α) : List (α × β) → Option β
-  | [] => none
-  | (k', v) :: r => if k' == k then some v else lookup k r
-
 /-- `AgnosticPitch`: the (already normalised) name and the octave. -/
 structure APitch where
   name : Str
